@@ -24,8 +24,14 @@
    fails, the position after which the source fails (with/without a short final
    read), whether a minifier is registered, the response headers and the handler's
    use of WriteHeader, the consumer's buffer size, and a gate that keeps the sink
-   closed until Close is in flight.                                              *)
-EXTENDS Integers, Sequences, FiniteSets, TLC, Json
+   closed until Close is in flight.
+
+   Every action also emits its observable events in the vocabulary of the harness
+   (WriteCall, WriteRet, SinkWrite, hook.writer.exit, CloseRet, Commit, Read, ...);
+   with Monitor = TRUE the property relation of the trace specification (StreamRel)
+   runs over them as the history variable mon, and MonitorQuiet / MonitorFinal state
+   that it never flags a behaviour of this design (D => A).                      *)
+EXTENDS Integers, Sequences, FiniteSets, TLC, Json, StreamRel
 
 CONSTANTS Input,        \* sequence of abstract byte ids, e.g. <<1,2,3>>
           MaxOut,       \* number of output pieces the minifier writes before the probe
@@ -35,7 +41,8 @@ CONSTANTS Input,        \* sequence of abstract byte ids, e.g. <<1,2,3>>
           PatchCL,      \* TRUE: responseWriter.Write drops Content-Length on the first write (proposed patch)
           Mut,          \* "none", or a deliberately wrong design used to show that the invariants bite
           FullProduct,  \* TRUE: full product of the response-mode choices; FALSE: header choices and fault/gate choices factored
-          RecordHist    \* TRUE: hist records the action labels (generation); FALSE for model checking
+          RecordHist,   \* TRUE: hist records the action labels (generation); FALSE for model checking
+          Monitor       \* TRUE: mon runs the property relation StreamRel over the events the actions emit (D => A)
 
 VARIABLES mode, cfg,    \* fixed in Init
           chunks,       \* chunks the environment still has to offer (producer writes / source reads)
@@ -47,8 +54,9 @@ VARIABLES mode, cfg,    \* fixed in Init
           src,          \* underlying reader double
           http,         \* response header state
           wgdone,       \* sync.WaitGroup of the writer wrapper
-          hist          \* history variable (hidden by the VIEW)
-vars == <<mode, cfg, chunks, cst, cres, pipe, wk, sink, src, http, wgdone, hist>>
+          hist,         \* history variable (hidden by the VIEW)
+          mon           \* history variable: state of the property relation (StreamRel) over the emitted events
+vars == <<mode, cfg, chunks, cst, cres, pipe, wk, sink, src, http, wgdone, hist, mon>>
 View == <<mode, cfg, chunks, cst, cres, pipe, wk, sink, src, http, wgdone>>
 
 In1 == <<1>>
@@ -103,7 +111,33 @@ CfgOf(m) == CASE m = "writer" -> CfgW [] m = "reader" -> CfgR [] m = "plain" -> 
               [] m = "bytes" -> CfgB [] m = "response" -> CfgH
 ChunksOf(m) == IF m = "bytes" THEN {<<Input>>} ELSE Cuts(Input, TRUE)
 
-Rec(a) == hist' = IF RecordHist THEN Append(hist, a) ELSE hist
+-----------------------------------------------------------------------------
+(* observable events, in the vocabulary of the harness (see StreamRel), and the session header of a model run *)
+Cls(x) == CASE x = "nil" -> "nil" [] x = "ok" -> "nil" [] x = "ErrSink" -> "sink" [] x = "ErrSrc" -> "src"
+            [] x = "ErrNotExist" -> "notexist" [] x = "ErrClosedPipe" -> "closedpipe" [] x = "EOF" -> "eof" [] OTHER -> x
+Txt(x) == IF Cls(x) = "nil" THEN "" ELSE Cls(x)          \* one error text per error value
+Ev(k, n, c, e, t, b) == [k |-> k, n |-> n, c |-> c, e |-> e, t |-> t, b |-> b]
+E0(k) == Ev(k, 0, 0, "", "", <<>>)
+EErr(k, x) == Ev(k, 0, 0, Cls(x), Txt(x), <<>>)
+\* result of the plain call for mediatype class t (digest = the byte sequence itself)
+WantOf(t) == IF Known(t) THEN [n |-> MaxOut * PieceLen, h |-> Flat(Expected(Input, t)), b |-> Flat(Expected(Input, t)), e |-> "nil", t |-> ""]
+             ELSE [n |-> 0, h |-> <<>>, b |-> <<>>, e |-> "notexist", t |-> "notexist"]
+Hdr == [mode |-> IF mode = "response" THEN (IF cfg.mw = "rw" THEN "response" ELSE "mwerr") ELSE mode,
+        ff |-> cfg.failfrom, sf |-> cfg.srcfail, small |-> TRUE, in |-> Input, inn |-> Len(Input), inh |-> Input, h0 |-> <<>>,
+        nwrite |-> mon.nwrite, want |-> IF cfg.notexist THEN WantOf("U") ELSE WantOf("K1"),
+        ct |-> IF cfg.ct = "none" THEN "" ELSE cfg.ct, xt |-> cfg.ext, cl |-> IF cfg.cl = "stale" THEN Len(Input) ELSE -1,
+        wct |-> WantOf(cfg.ct), wxt |-> WantOf(cfg.ext)]
+Observe(m, e) == [m EXCEPT !.bad = @ \cup EventBad(m.st, e, Hdr), !.st = Apply(m.st, e, Hdr)]
+RECURSIVE ObserveAll(_, _)
+ObserveAll(m, es) == IF es = <<>> THEN m ELSE ObserveAll(Observe(m, Head(es)), Tail(es))
+\* every action: label for hist, events for the monitor
+Rec(a, es) == /\ hist' = IF RecordHist THEN Append(hist, a) ELSE hist
+              /\ mon' = IF Monitor /\ mode # "plain" THEN ObserveAll(mon, es) ELSE mon
+\* events of a Write on the underlying ResponseWriter / sink double: implicit header commit, then the write
+CommitEv == IF mode = "response" /\ http.committed = "no"
+            THEN <<Ev("Commit", 200, IF http.cl # "none" THEN Len(Input) ELSE -1, "", "", <<>>)>> ELSE <<>>
+SinkEv(bytes, okay) == <<Ev("SinkWrite", Len(bytes), 0, IF okay THEN "nil" ELSE "sink",
+                            IF okay THEN mon.st.b \o bytes ELSE mon.st.b, bytes)>>
 
 Init == /\ mode \in Modes
         /\ cfg \in CfgOf(mode)
@@ -119,6 +153,7 @@ Init == /\ mode \in Modes
         /\ http = [cl |-> cfg.cl, committed |-> "no", sel |-> "none", whdone |-> FALSE]
         /\ wgdone = FALSE
         /\ hist = <<>>
+        /\ mon = [st |-> St0(<<>>), bad |-> {}, nwrite |-> Len(chunks)]
 
 -----------------------------------------------------------------------------
 (* producer side of the pipe: z.Write(chunk) = pw.Write(chunk)  (writer; response after selection) *)
@@ -132,7 +167,8 @@ Piped == mode = "writer" \/ (mode = "response" /\ Known(http.sel))
 PWriteCall == /\ Piped /\ cst = "idle" /\ chunks # <<>>
               /\ PipeWriteBegin(Head(chunks))
               /\ chunks' = Tail(chunks)
-              /\ Rec("WriteCall")
+              /\ Rec("WriteCall", <<Ev("WriteCall", Len(Head(chunks)), 0, "", "", <<>>)>>
+                                   \o IF pipe.rclosed THEN <<EErr("WriteRet", "ErrClosedPipe")>> ELSE <<>>)
               /\ UNCHANGED <<mode, cfg, wk, sink, src, http, wgdone>>
 \* the blocked write returns when everything was handed over, or when the read side was closed
 PWriteRet == /\ cst = "inwrite"
@@ -141,18 +177,20 @@ PWriteRet == /\ cst = "inwrite"
                 ELSE pipe.rclosed /\ cres' = [cres EXCEPT !.writes = Append(@, "ErrClosedPipe")]
              /\ pipe' = [pipe EXCEPT !.act = FALSE, !.buf = <<>>]
              /\ cst' = "idle"
-             /\ Rec("WriteRet")
+             /\ Rec("WriteRet", <<EErr("WriteRet", IF pipe.once /\ pipe.buf = <<>> THEN "nil" ELSE "ErrClosedPipe")>>)
              /\ UNCHANGED <<mode, cfg, chunks, wk, sink, src, http, wgdone>>
 \* writer.Close: z.WriteCloser.Close(), then z.wg.Wait()
 PCloseCall == /\ mode = "writer" /\ cst = "idle" /\ chunks = <<>>
               /\ cst' = "waitwg" /\ pipe' = [pipe EXCEPT !.wclosed = "EOF"]
-              /\ Rec("CloseCall")
+              /\ Rec("CloseCall", <<E0("CloseCall")>>)
               /\ UNCHANGED <<mode, cfg, chunks, cres, wk, sink, src, http, wgdone>>
 PCloseRet == /\ cst = "waitwg" /\ (wgdone \/ Mut = "nowait")
              /\ cst' = "done"
              /\ cres' = [cres EXCEPT !.close = wk.zerr,
                                      !.errfunc = IF cfg.mw = "mwerr" /\ wk.zerr # "nil" THEN wk.zerr ELSE @]
-             /\ Rec("CloseRet")
+             /\ Rec("CloseRet", <<E0("hook.writer.closewaited")>>
+                                 \o (IF cfg.mw = "mwerr" /\ wk.zerr # "nil" THEN <<EErr("ErrFunc", wk.zerr)>> ELSE <<>>)
+                                 \o <<IF cfg.mw = "mwerr" THEN Ev("CloseRet", 0, 0, "unseen", "", <<>>) ELSE EErr("CloseRet", wk.zerr)>>)
              /\ UNCHANGED <<mode, cfg, chunks, pipe, wk, sink, src, http, wgdone>>
 
 -----------------------------------------------------------------------------
@@ -164,7 +202,7 @@ HWriteHeader(h) == Commit([h EXCEPT !.cl = "none", !.whdone = TRUE], FALSE)
 HStart == /\ mode = "response" /\ cst = "hstart"
           /\ http' = IF cfg.wh = "first" THEN HWriteHeader(http) ELSE http
           /\ cst' = "idle"
-          /\ Rec("HandlerStart")
+          /\ Rec("HandlerStart", IF cfg.wh = "first" THEN <<Ev("Commit", 200, -1, "", "", <<>>)>> ELSE <<>>)
           /\ UNCHANGED <<mode, cfg, chunks, cres, pipe, wk, sink, src, wgdone>>
 \* first Write: select the minifier (Content-Type, else the extension's type), start the worker or pass through
 SelOf(c) == IF Mut = "extfirst" THEN (IF Known(c.ext) THEN c.ext ELSE c.ct) ELSE Chosen(c)
@@ -174,7 +212,7 @@ HSelect == /\ mode = "response" /\ cst = "idle" /\ chunks # <<>> /\ http.sel = "
               THEN /\ http' = [http EXCEPT !.sel = mt, !.cl = IF PatchCL THEN "none" ELSE @]
                    /\ wk' = [wk EXCEPT !.st = "start", !.by = mt]
               ELSE /\ http' = [http EXCEPT !.sel = "pass"] /\ UNCHANGED wk
-           /\ Rec("Select")
+           /\ Rec("Select", <<Ev(IF Known(SelOf(cfg)) THEN "hook.response.select" ELSE "hook.response.passthrough", 0, 0, "nil", SelOf(cfg), <<>>)>>)
            /\ UNCHANGED <<mode, cfg, chunks, cst, cres, pipe, sink, src, wgdone>>
 SinkOK == cfg.failfrom = 0 \/ sink.calls + 1 < cfg.failfrom
 \* pass-through: the chunk goes straight to the underlying ResponseWriter (first Write commits the headers)
@@ -184,18 +222,20 @@ HPassWrite == /\ mode = "response" /\ cst = "idle" /\ chunks # <<>> /\ http.sel 
                                       !.delivered = IF SinkOK THEN Append(@, Head(chunks)) ELSE @]
               /\ cres' = [cres EXCEPT !.writes = Append(@, IF SinkOK THEN "ok" ELSE "ErrSink")]
               /\ chunks' = Tail(chunks)
-              /\ Rec("PassWrite")
+              /\ Rec("PassWrite", <<Ev("WriteCall", Len(Head(chunks)), 0, "", "", <<>>)>> \o CommitEv \o SinkEv(Head(chunks), SinkOK)
+                                   \o <<EErr("WriteRet", IF SinkOK THEN "nil" ELSE "ErrSink")>>)
               /\ UNCHANGED <<mode, cfg, cst, pipe, wk, src, wgdone>>
 HWriteHeaderLast == /\ mode = "response" /\ cst = "idle" /\ chunks = <<>> /\ cfg.wh = "last" /\ ~http.whdone
                     /\ http' = HWriteHeader(http)
-                    /\ Rec("WriteHeaderLast")
+                    /\ Rec("WriteHeaderLast", IF http.committed = "no" THEN <<Ev("Commit", 200, -1, "", "", <<>>)>> ELSE <<>>)
                     /\ UNCHANGED <<mode, cfg, chunks, cst, cres, pipe, wk, sink, src, wgdone>>
 \* handler returns; the middleware (or the caller) calls responseWriter.Close
 HClose == /\ mode = "response" /\ cst = "idle" /\ chunks = <<>> /\ (cfg.wh = "last" => http.whdone)
           /\ IF Known(http.sel)
              THEN /\ cst' = "waitwg" /\ pipe' = [pipe EXCEPT !.wclosed = "EOF"] /\ UNCHANGED cres
              ELSE /\ cst' = "done" /\ cres' = [cres EXCEPT !.close = "nil"] /\ UNCHANGED pipe
-          /\ Rec("CloseCall")
+          /\ Rec("CloseCall", <<E0("CloseCall")>> \o (IF Known(http.sel) THEN <<>>
+                                ELSE <<IF cfg.mw = "mwerr" THEN Ev("CloseRet", 0, 0, "unseen", "", <<>>) ELSE EErr("CloseRet", "nil")>>))
           /\ UNCHANGED <<mode, cfg, chunks, wk, sink, src, http, wgdone>>
 
 -----------------------------------------------------------------------------
@@ -203,7 +243,7 @@ HClose == /\ mode = "response" /\ cst = "idle" /\ chunks = <<>> /\ (cfg.wh = "la
 WStart == /\ wk.st = "start"
           /\ wk' = IF cfg.notexist THEN [wk EXCEPT !.st = "exiting", !.err = "ErrNotExist"]
                    ELSE [wk EXCEPT !.st = "reading"]
-          /\ Rec("WStart")
+          /\ Rec("WStart", <<>>)
           /\ UNCHANGED <<mode, cfg, chunks, cst, cres, pipe, sink, src, http, wgdone>>
 Computed(w) == [w EXCEPT !.left = Expected(w.inbuf, w.by), !.st = IF MaxOut = 0 THEN "probe" ELSE "writing"]
 \* io.ReadAll over the pipe: take n >= 1 offered bytes (its buffer size is arbitrary), 0 for an empty write, or see EOF
@@ -214,7 +254,7 @@ WReadPipe == /\ wk.st = "reading" /\ mode \in {"writer", "response"}
                         /\ pipe' = [pipe EXCEPT !.buf = SubSeq(@, n+1, Len(@)), !.once = TRUE]
                 \/ /\ ~pipe.act /\ pipe.wclosed # "no"
                    /\ wk' = Computed(wk) /\ UNCHANGED pipe
-             /\ Rec("WRead")
+             /\ Rec("WRead", <<>>)
              /\ UNCHANGED <<mode, cfg, chunks, cst, cres, sink, src, http, wgdone>>
 \* io.ReadAll over the source double: next chunk, cut at the fault point; (n>0, err) if the final read is short
 WReadSrc == /\ wk.st = "reading" /\ mode \in {"reader", "plain", "bytes"}
@@ -228,13 +268,13 @@ WReadSrc == /\ wk.st = "reading" /\ mode \in {"reader", "plain", "bytes"}
                     IN /\ src' = [given |-> src.given + room, hit |-> src.hit \/ witherr]
                        /\ wk' = [wk EXCEPT !.inbuf = @ \o SubSeq(c, 1, room), !.st = IF witherr THEN "srcerr" ELSE "reading"]
                        /\ chunks' = IF room = Len(c) THEN Tail(chunks) ELSE <<SubSeq(c, room+1, Len(c))>> \o Tail(chunks)
-            /\ Rec("SrcRead")
+            /\ Rec("SrcRead", <<>>)
             /\ UNCHANGED <<mode, cfg, cst, cres, pipe, sink, http, wgdone>>
 \* NewInput failed: the lexer reports the reader's error; every minifier but JS still does the probe write first
 WSrcErr == /\ wk.st = "srcerr"
            /\ wk' = [wk EXCEPT !.err = IF Mut = "eofswallow" THEN "nil" ELSE "ErrSrc", !.left = <<>>,
                                !.st = IF cfg.probeOnErr THEN "probe" ELSE "exiting"]
-           /\ Rec("WSrcErr")
+           /\ Rec("WSrcErr", <<>>)
            /\ UNCHANGED <<mode, cfg, chunks, cst, cres, pipe, sink, src, http, wgdone>>
 GateOK == cfg.gate = "none" \/ sink.open
 \* intermediate writes: their errors are ignored by the minifiers
@@ -243,7 +283,7 @@ WWriteSink == /\ wk.st = "writing" /\ mode # "reader" /\ GateOK
                                       !.delivered = IF SinkOK THEN Append(@, Head(wk.left)) ELSE @]
               /\ wk' = [wk EXCEPT !.left = Tail(@), !.st = IF Len(wk.left) = 1 THEN "probe" ELSE "writing"]
               /\ http' = IF mode = "response" THEN Commit(http, http.cl # "none") ELSE http
-              /\ Rec("SinkWrite")
+              /\ Rec("SinkWrite", CommitEv \o SinkEv(Flat(<<Head(wk.left)>>), SinkOK))
               /\ UNCHANGED <<mode, cfg, chunks, cst, cres, pipe, src, wgdone>>
 \* w.Write(nil): its error is the minifier's result
 WProbeSink == /\ wk.st = "probe" /\ mode # "reader" /\ GateOK
@@ -251,20 +291,20 @@ WProbeSink == /\ wk.st = "probe" /\ mode # "reader" /\ GateOK
                  ELSE /\ sink' = [sink EXCEPT !.calls = @ + 1, !.hit = @ \/ ~SinkOK]
                       /\ wk' = [wk EXCEPT !.st = "exiting", !.err = IF SinkOK THEN @ ELSE "ErrSink"]
                       /\ http' = IF mode = "response" THEN Commit(http, http.cl # "none") ELSE http
-              /\ Rec("SinkProbe")
+              /\ Rec("SinkProbe", IF Mut = "noprobe" THEN <<>> ELSE CommitEv \o SinkEv(<<>>, SinkOK))
               /\ UNCHANGED <<mode, cfg, chunks, cst, cres, pipe, src, wgdone>>
 \* reader mode: output and probe go to the pipe; each Write is a rendezvous with the consumer's Reads
 WPipeBegin == /\ mode = "reader" /\ wk.st \in {"writing", "probe"}
               /\ pipe' = [pipe EXCEPT !.act = TRUE, !.once = FALSE, !.buf = IF wk.st = "writing" THEN Head(wk.left) ELSE <<>>]
               /\ wk' = [wk EXCEPT !.st = IF wk.st = "writing" THEN "pwriting" ELSE "pprobing"]
-              /\ Rec("PipeWriteBegin")
+              /\ Rec("PipeWriteBegin", <<>>)
               /\ UNCHANGED <<mode, cfg, chunks, cst, cres, sink, src, http, wgdone>>
 WPipeEnd == /\ mode = "reader" /\ wk.st \in {"pwriting", "pprobing"} /\ pipe.once /\ pipe.buf = <<>>
             /\ pipe' = [pipe EXCEPT !.act = FALSE]
             /\ wk' = IF wk.st = "pwriting"
                      THEN [wk EXCEPT !.left = Tail(@), !.st = IF Len(wk.left) = 1 THEN "probe" ELSE "writing"]
                      ELSE [wk EXCEPT !.st = "exiting"]
-            /\ Rec("PipeWriteEnd")
+            /\ Rec("PipeWriteEnd", <<>>)
             /\ UNCHANGED <<mode, cfg, chunks, cst, cres, sink, src, http, wgdone>>
 \* Minify returned: store the error (hook "writer.exit"/"reader.exit" fires here), then release the pipe
 WExit1 == /\ wk.st = "exiting"
@@ -277,11 +317,14 @@ WExit1 == /\ wk.st = "exiting"
                     /\ pipe' = [pipe EXCEPT !.wclosed = IF z = "nil" THEN "EOF" ELSE z]   \* pw.CloseWithError
                [] OTHER ->
                     /\ wk' = [wk EXCEPT !.st = "exited", !.zerr = z] /\ UNCHANGED pipe
-          /\ Rec("WExit")
+          /\ Rec("WExit", LET z == IF Mut = "noerr" THEN "nil" ELSE wk.err IN
+                           CASE mode \in {"writer", "response"} -> <<EErr("hook.writer.exit", z)>>
+                             [] mode = "reader" -> <<EErr("hook.reader.exit", z)>>
+                             [] OTHER -> <<>>)
           /\ UNCHANGED <<mode, cfg, chunks, cst, cres, sink, src, http, wgdone>>
 WExit2 == /\ wk.st = "closedpr"
           /\ wgdone' = TRUE /\ wk' = [wk EXCEPT !.st = "exited"]         \* deferred wg.Done()
-          /\ Rec("WgDone")
+          /\ Rec("WgDone", <<>>)
           /\ UNCHANGED <<mode, cfg, chunks, cst, cres, pipe, sink, src, http>>
 
 -----------------------------------------------------------------------------
@@ -294,17 +337,21 @@ CRead == /\ mode = "reader" /\ cst = "cidle"
                /\ UNCHANGED cst
             \/ /\ ~pipe.act /\ pipe.wclosed # "no"
                /\ cres' = [cres EXCEPT !.read = pipe.wclosed] /\ cst' = "done" /\ UNCHANGED pipe
-         /\ Rec("Read")
+         /\ Rec("Read", IF pipe.act /\ ~(pipe.once /\ pipe.buf = <<>>)
+                         THEN LET n == Min(cfg.cbuf, Len(pipe.buf)) IN
+                              <<Ev("Read", n, cfg.cbuf, "nil", mon.st.b \o SubSeq(pipe.buf, 1, n), SubSeq(pipe.buf, 1, n))>>
+                         ELSE <<Ev("Read", 0, cfg.cbuf, Cls(pipe.wclosed), Txt(pipe.wclosed), <<>>)>>)
          /\ UNCHANGED <<mode, cfg, chunks, wk, sink, src, http, wgdone>>
 (* caller of the plain call / Bytes / String *)
 PRet == /\ mode \in {"plain", "bytes"} /\ cst = "pcall" /\ wk.st = "exited"
         /\ cst' = "done" /\ cres' = [cres EXCEPT !.ret = wk.zerr]
-        /\ Rec("Ret")
+        /\ Rec("Ret", <<Ev("Ret", Len(sink.delivered) * PieceLen, 0, Cls(wk.zerr),
+                             IF wk.zerr = "nil" THEN Flat(sink.delivered) ELSE Txt(wk.zerr), Flat(sink.delivered))>>)
         /\ UNCHANGED <<mode, cfg, chunks, pipe, wk, sink, src, http, wgdone>>
 (* harness: the sink gate opens only once Close is in flight *)
 GateOpen == /\ cfg.gate = "close" /\ ~sink.open /\ cst \in {"waitwg", "done"}
             /\ sink' = [sink EXCEPT !.open = TRUE]
-            /\ Rec("GateOpen")
+            /\ Rec("GateOpen", <<E0("GateOpen")>>)
             /\ UNCHANGED <<mode, cfg, chunks, cst, cres, pipe, wk, src, http, wgdone>>
 
 Client == PWriteCall \/ PWriteRet \/ PCloseCall \/ PCloseRet \/ HStart \/ HSelect \/ HPassWrite
@@ -356,6 +403,17 @@ NoPartialInput == \A i \in 1..Len(sink.delivered) :
                      (mode # "response" \/ Known(http.sel)) => \A j \in 1..PieceLen : sink.delivered[i][j].of = Input
 \* C12/C14 "Close always returns" (and the plain call, and the consumer sees the end)
 CloseReturned == <>(cst = "done")
+
+\* D => A: the property relation (StreamRel), run as a monitor over the events of every behaviour of the design,
+\* never flags anything - in particular no clause of the trace specification rejects an interleaving that the
+\* correct design can produce.  (The design as implemented keeps the stale Content-Length: that clause is the
+\* known finding and is tolerated unless PatchCL.)
+CLGClause == "ContentLengthGone: response committed with a Content-Length that differs from the body"
+Tolerated == IF PatchCL THEN {} ELSE {CLGClause}
+MonitorQuiet == Monitor => (mon.bad \ Tolerated) = {}
+MonitorFinal == (Monitor /\ Terminated /\ mode # "plain") => (FinalBad(mon.st, Hdr) \ Tolerated) = {}
+\* the design as implemented must be flagged for the stale Content-Length (used to show that the model has the finding)
+MonitorStrict == (Monitor /\ Terminated /\ mode # "plain") => FinalBad(mon.st, Hdr) = {}
 
 \* generation: one line per initial state (what the harness controls)
 EmitInit == PrintT(<<"INIT", ToJson([mode |-> mode, cfg |-> cfg, sizes |-> [i \in 1..Len(chunks) |-> Len(chunks[i])]])>>)
